@@ -53,6 +53,8 @@ func genC13(t *core.Tape, tier string) *Scenario {
 		fixCompat(&c, &sc.Handlers[0])
 		sc.Clients = append(sc.Clients, c)
 	}
+	// an HTTPClient that edits the request it is handed (per-call routing)
+	mutURL := t.Bool(1, 2, "httpclient.edits.url")
 	g := 2 + t.Choose(5, "tasks")
 	k := 1 + t.Choose(3, "calls.per.task")
 	n := 0
@@ -61,6 +63,7 @@ func genC13(t *core.Tape, tier string) *Scenario {
 			p := &CallPlan{ID: callID(n), Kind: genKind(t), Client: t.Choose(nclients, "client"), Task: task}
 			n++
 			p.K = genKnobs(t, p.Kind)
+			p.K.MutateURL = mutURL
 			nreq, nresp := 1, 1
 			if p.Kind == KClient || p.Kind == KBidi {
 				nreq = t.Choose(4, "nreq")
@@ -164,6 +167,14 @@ func checkC13(w *World, st core.Status, r *RunResult) []Violation {
 		tag := w.Sc.Clients[p.Client].Proto.String() + "/" + p.Kind.String()
 		add := func(class, msg string) {
 			vs = append(vs, Violation{Class: "C13/" + class + "/" + tag, Msg: p.ID + ": " + msg})
+		}
+		// the request handed to the user's HTTPClient is this call's own: an edit
+		// another call's HTTPClient made to its request URL is not visible here
+		if q, ok := o.Call.URLAtDo(); ok {
+			r.Probes["request_url_checked"]++
+			if q != "" {
+				add("cross-talk/request-url", fmt.Sprintf("the request handed to HTTPClient.Do already carried %q, the edit made to another call's request URL", q))
+			}
 		}
 		// nothing of another call shows up in this one
 		for i, m := range o.Recv {
